@@ -536,6 +536,15 @@ class _Gen:
         self.add("main", "a", f"var {cv} = 5\n\n//go:noinline\nfunc {cf}(k int) int {{\n\tacc := k\n\tstep := func(d int) func() int {{\n\t\treturn func() int {{ acc += d; {cv}++; return acc }}\n\t}}\n"
                               f"\ta, b := step(2), step(3)\n\ta()\n\tb()\n\treturn a() + {cv}\n}}")
         call(1, f"{cf}(k)", lambda k: k + 7 + 8)
+        # E2: Test-prefixed functions WITHOUT a test signature (universe-typed parameter, `any`, no parameter): they are
+        # ordinary functions and are renamed; isTestSignature must cope with a named type that has no package (F015)
+        tu, ta, tn = f"TestZqvUni{t}q", f"TestZqvAny{t}q", f"TestZqvNone{t}q"
+        for nm_ in (tu, ta, tn):
+            self.plant(nm_, "func", True, "main")
+        self.add("main", "a", f"//go:noinline\nfunc {tu}(err error) int {{\n\tif err != nil {{\n\t\treturn 1\n\t}}\n\treturn 2\n}}\n\n"
+                              f"//go:noinline\nfunc {ta}(v any) int {{\n\tif v == nil {{\n\t\treturn 0\n\t}}\n\treturn 1\n}}\n\n"
+                              f"//go:noinline\nfunc {tn}() int {{ return 3 }}")
+        call(2, f"{tu}(nil) + {ta}(k) + {tn}() + k", lambda k: 2 + 1 + 3 + k)
         # E3: blank import registering itself from init; E6: init order across packages
         reg, regd, regv = H("xrg", "func", True, "dep"), H("xrd", "func", True, "dep"), H("xrv", "pkgvar", False, "dep")
         self.add("dep", "a", f"var {regv} = 1\n\nfunc init() {{ {regv} *= 10 }}\n\nfunc {reg}(v int) {{ {regv} += v }}\n\n//go:noinline\nfunc {regd}() int {{ return {regv} }}")
